@@ -175,6 +175,19 @@ class FindScopes(FindNodes):
             ret = self.visit(i, ret=ret, ancestors=ancestors, **kwargs)
         return ret or self.default_retval()
 
+    def visit_TypeDef(self, o, **kwargs):
+        """
+        Add the :any:`TypeDef` node to the list of ancestors and, if :data:`o`
+        is :data:`match`, return the list of ancestors. As in :any:`FindNodes`,
+        the body of the type definition is not traversed.
+        """
+        ret = kwargs.pop('ret', self.default_retval())
+        ancestors = kwargs.pop('ancestors', []) + [o]
+
+        if self.rule(self.match, o):
+            ret.append(ancestors)
+        return ret or self.default_retval()
+
 
 class SequenceFinder(Visitor):
     """
